@@ -193,13 +193,34 @@ def b2(ctx, rep):
     have = set(sw[0]['strings'])
     missing = sorted(set(ref['swift']) - have)
     rep.check(not missing, 'B2', 'swift:keyword-table', f'{len(have)} keywords', f"SWIFT_KEYWORDS lacks the reserved word(s) {missing}: a field/variant/type of that name is emitted unescaped and the Swift file does not parse", {'file': sw[0]['file'], 'line': sw[0]['line']})
-    pk = ctx.fn('get_python_keywords', file='python.rs')
-    lits = {l.get('v') for l in vt.lits(pk['tail']) if l.get('t') == 'str'}
-    for c in pk['calls']:
-        for a in c.get('args', []):
-            lits |= {l.get('v') for l in vt.lits(a) if l.get('t') == 'str'}
+    lits, src = python_keyword_table(ctx)
+    if not src:
+        raise core.Incomplete('python.rs: keyword table (a list of string literals containing lambda/nonlocal) not found')
     missing = sorted(set(ref['python']) - lits)
-    rep.check(not missing, 'B2', 'python:keyword-table', f'{len(lits)} keywords', f"the Python keyword list lacks {missing}: a field of that name is emitted as a bare attribute and the module does not parse", {'file': pk['file'], 'line': pk['line']})
+    rep.check(not missing, 'B2', 'python:keyword-table', f'{len(lits)} keywords', f"the Python keyword list lacks {missing}: a field of that name is emitted as a bare attribute and the module does not parse", {'file': src[0]['file'], 'line': src[0]['line']})
+
+
+def python_keyword_table(ctx):
+    """The keyword table of the Python backend wherever it lives: a const/static item or a function of python.rs whose string
+    literals include the tell-tale reserved words.  Returns (set of literals, [source items])."""
+    srcs, lits = [], set()
+    for it in ctx.astq['items']:
+        if it['file'].endswith('python.rs') and it['kind'] in ('const', 'static') and {'lambda', 'nonlocal'} <= set(it.get('strings') or []):
+            srcs.append(it)
+            lits |= set(it['strings'])
+    for g in ctx.astq['functions']:
+        if not g['file'].endswith('python.rs') or g['sites']:
+            continue
+        ls = {l.get('v') for l in vt.lits(g.get('tail')) if l.get('t') == 'str'}
+        for c in g['calls']:
+            for a_ in c.get('args', []):
+                ls |= {l.get('v') for l in vt.lits(a_) if l.get('t') == 'str'}
+        for l_ in g.get('lets', []):
+            ls |= {l.get('v') for l in vt.lits(l_.get('v')) if l.get('t') == 'str'}
+        if {'lambda', 'nonlocal'} <= ls:
+            srcs.append(g)
+            lits |= ls
+    return lits, srcs
 
 
 def b6(ctx, rep, T):
@@ -235,7 +256,8 @@ def b6(ctx, rep, T):
 
 def b3(ctx, rep, T):
     struct, file = emit.BACKENDS['swift']
-    fns = [g for g in ctx.astq['functions'] if g['file'].endswith(file)]
+    # inlined views: a local helper that builds the declared name (prefix + escaped name ...) is seen through
+    fns = [inline.view(ctx, g) for g in ctx.astq['functions'] if g['file'].endswith(file)]
     decl = re.compile(r'(public let |case |public struct |enum |public typealias |\tcase )$')
     n = 0
     for f in fns:
@@ -257,14 +279,21 @@ def b3(ctx, rep, T):
                     m = decl.search(before) or (seq[ix - 1][0] == 'joined' and any(x[0] == 'lit' and x[1].rstrip().endswith('case') for x in seq[:ix]))
                     if not m:
                         continue
-                    if not re.search(r'\.id\.(renamed|original)$', c[1]) and 'prefix' not in c[1]:
+                    if not re.search(r'\.id(\.(renamed|original))?$', c[1]) and 'prefix' not in c[1]:
                         continue
+                    glued = False
                     if c[1].endswith('.prefix'):
-                        # the prefix and the name are escaped together
+                        # the prefix and the name are escaped together: the back-ticks must enclose the whole identifier
                         nxt = seq[ix + 1] if ix + 1 < len(seq) else None
-                        c = nxt if nxt and nxt[0] == 'atom' else c
+                        if nxt and nxt[0] == 'atom':
+                            glued = 'swift_keyword_aware_rename' in nxt[2] and 'swift_keyword_aware_rename' not in c[2]
+                            c = nxt
                     n += 1
                     ok = 'swift_keyword_aware_rename' in c[2]
+                    if glued:
+                        role = ' '.join(re.sub(r'[^A-Za-z ]+', ' ', before).split()[-2:]) or 'case-list'
+                        rep.fail('B3', f"swift:{f['name']}:{role}:{c[1].split('.')[0]}:escaped-with-prefix", f"swift: {f['qual']} escapes only the type name and puts the prefix in front of the result (`{emit.seq_str(seq[ix - 1:ix + 2])[:90]}`): with a non-empty prefix a reserved-word name yields prefix + back-ticked word (OP`Type`), which is not an identifier — the escaper must see prefix and name together", {'file': f['file'], 'line': s['line']})
+                        continue
                     role = re.sub(r'[^A-Za-z ]+', ' ', before).split()[-2:] and ' '.join(re.sub(r'[^A-Za-z ]+', ' ', before).split()[-2:]) or 'case-list'
                     rep.check(ok, 'B3', f"swift:{f['name']}:{role}:{c[1].split('.')[0]}", f'{c[1]} escaped', f"swift: {f['qual']} writes the name `{c[1]}` after `{role}` without swift_keyword_aware_rename (path: {list(c[2]) or 'none'}): an identifier that is a Swift reserved word (default, in, case, …) makes the declaration unparsable", {'file': f['file'], 'line': s['line']})
     rep.floor('B3', 'swift declaration-name holes', n, 6)
@@ -277,6 +306,27 @@ def b3(ctx, rep, T):
                 ok = True
     rep.check(ok, 'B3', 'python:write_field:attribute-name', 'attribute name escaped', 'python: the field attribute name is not passed through python_property_aware_rename: a field named like a Python keyword (class, from, …) yields an unparsable class body', {'file': pf['file'], 'line': pf['line']})
     ppr = ctx.fn('python_property_aware_rename', file='python.rs')
-    rep.check(any(c.get('f') == 'get_python_keywords' for c in ppr['calls']), 'B3', 'python:escaper-uses-table', 'escaper consults the keyword table', 'python_property_aware_rename no longer consults the keyword table', {'file': ppr['file'], 'line': ppr['line']})
+    _lits, srcs = python_keyword_table(ctx)
+    names = {x['name'].split('::')[-1] for x in srcs}
+    psite = {'file': ppr['file'], 'line': ppr['line']}
+    test = None
+    for x in vt.walk(ppr.get('tail')):
+        sc = x.get('scrut') if x.get('k') == 'match' else (x.get('c') if x.get('k') == 'cond' else None)
+        sc = vt.unvar(sc) if sc is not None else None
+        if isinstance(sc, dict) and sc.get('k') == 'call' and sc.get('f') == 'contains' and any(n_ in vt.show(sc.get('recv')) for n_ in names):
+            test = (x, sc)
+            break
+    rep.check(test is not None, 'B3', 'python:escaper-uses-table', 'escaper consults the keyword table', 'python_property_aware_rename no longer decides by looking its argument up in the keyword table', psite)
+    if test is not None:
+        x, sc = test
+        subj = sc['args'][0] if sc.get('args') else None
+        while isinstance(vt.strip(subj), dict) and vt.strip(subj).get('k') in ('ref', 'deref', 'paren'):
+            subj = vt.strip(subj).get('v')
+        if x.get('k') == 'match':
+            plain = next((a_['v'] for a_ in x['arms'] if 'lit:false' in a_.get('variants', [])), None)
+        else:
+            plain = x.get('e')
+        same = subj is not None and plain is not None and vt.ckey(subj) == vt.ckey(plain)
+        rep.check(same, 'B3', 'python:escaper-tests-emitted-name', 'the string looked up in the keyword table is the string emitted when it is not a keyword', f"python_property_aware_rename looks `{vt.show(subj)[:50]}` up in the keyword table but emits `{vt.show(plain)[:60]}` otherwise: the name that reaches the file (snake_case drops leading/trailing underscores and lower-cases: `from_`, `_global`, `In`) is never tested, so a reserved word is written as a bare attribute and the module does not parse", psite)
     skr = ctx.fn('swift_keyword_aware_rename', file='swift.rs')
     rep.check('SWIFT_KEYWORDS' in json.dumps(skr['tail']) + json.dumps(skr['calls']), 'B3', 'swift:escaper-uses-table', 'escaper consults the keyword table', 'swift_keyword_aware_rename no longer consults SWIFT_KEYWORDS', {'file': skr['file'], 'line': skr['line']})
